@@ -23,6 +23,7 @@ func checkC07(c *Check) {
 	checkC07HandlerOnly(c)
 	checkC07ImportErrors(c)
 	checkCapturedDiagnostics(c)
+	checkDiagnosticRangeOrigin(c)
 	checkSilentEvaluation(c, c.Rule("R7.8", "a trial type check (EvaluateSilent) leaves the shared diagnostic state as it found it", 1))
 	_, isWrapper := handlerHelpers(c)
 	// ---------------- R7.2 flag writers ----------------
@@ -1125,5 +1126,88 @@ func checkCapturedDiagnostics(c *Check) {
 			}
 		}
 		r.Decide(len(bad) == 0, L.QName(fi.Obj)+"|panic mode reset after expressionOrErr", cs.Call.Pos(), "reset on every path before the next reporting call and before every exit", strings.Join(firstN(uniq(bad), 3), "; ")+": the captured error's re-delivery and the resolver's and type checker's diagnostics for this statement are suppressed; nothing is reported, the module is not marked faulty and an ill-formed program is compiled")
+	}
+}
+
+// R7.10: a diagnostic of the resolver or the type checker carries a range of the module that is being checked. The range
+// handed to the error helper derives from the visited node (a parameter of the visitor, or the receiver's state), never
+// from a declaration that was just looked up in the symbol table: that declaration may have been imported, its tokens lie
+// in another file, and the diagnostic - which names the current file - then points outside this file's text (the excerpt
+// renderer indexes past the end of the file).
+func checkDiagnosticRangeOrigin(c *Check) {
+	L := c.L
+	r := c.Rule("R7.10", "ranges of resolver and type-checker diagnostics derive from the visited node, not from a looked-up declaration", 20)
+	for _, rel := range []string{"src/parser/resolver", "src/parser/typechecker"} {
+		L.ForEachFunc([]string{rel}, func(fi *FuncInfo) {
+			info := fi.Pkg.TypesInfo
+			n := 0
+			ast.Inspect(fi.Decl.Body, func(nd ast.Node) bool {
+				call, ok := nd.(*ast.CallExpr)
+				if !ok {
+					return true
+				}
+				fn := Callee(info, call)
+				if fn == nil || !(nameIs(fn, "err") || nameIs(fn, "errExpr")) || len(call.Args) < 2 {
+					return true
+				}
+				if sig, ok := fn.Type().(*types.Signature); !ok || sig.Recv() == nil {
+					return true
+				}
+				rangeArg := call.Args[1]
+				// the variable the range is read from
+				var origin func(e ast.Expr, depth int) string
+				origin = func(e ast.Expr, depth int) string {
+					for {
+						switch x := ast.Unparen(e).(type) {
+						case *ast.SelectorExpr:
+							e = x.X
+							continue
+						case *ast.CallExpr:
+							if sel, ok := ast.Unparen(x.Fun).(*ast.SelectorExpr); ok && len(x.Args) == 0 {
+								e = sel.X // a getter on the node: node.Token(), node.GetRange()
+								continue
+							}
+							if f2 := Callee(info, x); f2 != nil && strings.HasPrefix(canonName(f2), "Lookup") {
+								return "looked up"
+							}
+							return "other"
+						case *ast.UnaryExpr:
+							e = x.X
+							continue
+						case *ast.StarExpr:
+							e = x.X
+							continue
+						}
+						break
+					}
+					id, ok := ast.Unparen(e).(*ast.Ident)
+					if !ok || depth > 4 {
+						return "other"
+					}
+					v, ok := info.Uses[id].(*types.Var)
+					if !ok {
+						return "other"
+					}
+					if isParamOf(info, fi, id) {
+						return "visited node"
+					}
+					if src, _ := tupleDef(info, fi.Decl.Body, v); src != nil {
+						if f2 := Callee(info, src); f2 != nil && strings.HasPrefix(canonName(f2), "Lookup") {
+							return "looked up"
+						}
+						return "other"
+					}
+					if d := singleDef(info, fi.Decl.Body, v); d != nil {
+						return origin(d, depth+1)
+					}
+					return "other"
+				}
+				n++
+				o := origin(rangeArg, 0)
+				key := fmt.Sprintf("%s|range of diagnostic #%d", L.QName(fi.Obj), n)
+				r.Decide(o != "looked up", key, call.Pos(), "derives from "+o, "the diagnostic's range is taken from a declaration obtained by a symbol-table lookup ("+L.Src(rangeArg)+"): when that declaration was imported, the range lies in another file than the one the diagnostic names, and the message points at unrelated text or the excerpt renderer fails")
+				return true
+			})
+		})
 	}
 }
